@@ -10,7 +10,23 @@ fn be(v: u128) -> [u8; 32] {
 }
 
 pub fn interesting_int(p: u64) -> [u8; 32] {
-    let classes: [[u8; 32]; 20] = [
+    let classes: [[u8; 32]; 28] = [
+        be(1 << 32),
+        be((1 << 32) - 1),
+        be(1 << 63),
+        be(1 << 64),
+        be(1 << 127),
+        {
+            let mut b = [0u8; 32];
+            b[7] = 1; // 2^192
+            b
+        },
+        {
+            let mut b = [0xff; 32];
+            b[0] = 0x7f; // 2^255 - 1
+            b
+        },
+        be((1 << 64) + 1),
         be(0),
         be(1),
         be(2),
@@ -44,7 +60,7 @@ pub fn interesting_int(p: u64) -> [u8; 32] {
         },
         be(7),
     ];
-    let c = (p % 28) as usize;
+    let c = (p % 38) as usize;
     if c < classes.len() {
         classes[c]
     } else {
@@ -158,6 +174,33 @@ impl Builder {
     }
 }
 
+/// heap addresses: mostly small, sometimes at the edges of the 16-bit address space and beyond it
+fn addr_class(p: u64) -> u128 {
+    if (p >> 8) % 6 == 0 {
+        [10u128, 255, 256, 65535, 65536, 1 << 64][(p % 6) as usize]
+    } else {
+        (p % 5) as u128
+    }
+}
+
+/// collection indices: mostly below `small`, sometimes at the edges of the 16-bit index space and beyond it
+fn index_class(p: u64, small: u64) -> u128 {
+    if (p >> 9) % 8 == 0 {
+        [255u128, 256, 65535, 65536, 1 << 32, 1 << 64, 1 << 128 - 1][(p % 7) as usize]
+    } else {
+        (p % small) as u128
+    }
+}
+
+/// forward jump distances: mostly short, sometimes far beyond the end of the program
+fn jump_class(p: u64) -> u16 {
+    if (p >> 10) % 10 == 0 {
+        [7u16, 60, 255, 256, 65535][(p % 5) as usize]
+    } else {
+        (p % 5) as u16
+    }
+}
+
 /// A 256-bit big-endian integer with exactly `l` significant bits (0 for l = 0): top bit set, lower bits all zero (0),
 /// only bit 0 (1), all ones (2) or pseudo-random (3).
 pub fn exp_operand(l: u32, pattern: u8, salt: u64) -> [u8; 32] {
@@ -248,7 +291,7 @@ pub fn build_program(choices: &[(u8, u64)]) -> Vec<ROp> {
             }
             18 | 19 => {
                 // shifts: offset second, value on top
-                let off = [0u128, 1, 8, 255, 256, 257, 511, 1 << 40][(p % 8) as usize];
+                let off = [0u128, 1, 8, 255, 256, 257, 511, 1 << 40, 31, 32, 63, 64, 65, 127, 128, 129, 191, 192, 254, (1 << 64) + 3][(p % 20) as usize];
                 b.push_small(off);
                 b.push_int(p >> 3);
                 b.ops.push(if c % 48 == 18 { ROp::Shl } else { ROp::Shr });
@@ -320,12 +363,12 @@ pub fn build_program(choices: &[(u8, u64)]) -> Vec<ROp> {
                 if b.st.is_empty() {
                     b.push_int(p);
                 }
-                b.push_small((p % 5) as u128);
+                b.push_small(addr_class(p));
                 b.ops.push(ROp::Store);
                 b.apply(2, None);
             }
             23 => {
-                b.push_small((p % 5) as u128);
+                b.push_small(addr_class(p));
                 b.ops.push(ROp::Load);
                 b.apply(1, Some(Ty::I));
             }
@@ -333,16 +376,21 @@ pub fn build_program(choices: &[(u8, u64)]) -> Vec<ROp> {
                 if b.st.is_empty() {
                     b.push_int(p);
                 }
-                b.ops.push(ROp::StoreImm((p % 5) as u16));
+                b.ops.push(ROp::StoreImm(if (p >> 8) % 8 == 0 { [255u16, 256, 4095, 65535][(p % 4) as usize] } else { (p % 5) as u16 }));
                 b.apply(1, None);
             }
             25 => {
+                if (p >> 8) % 8 == 0 {
+                    b.ops.push(ROp::LoadImm([255u16, 256, 4095, 65535][(p % 4) as usize]));
+                    b.apply(0, Some(Ty::I));
+                    continue;
+                }
                 b.ops.push(ROp::LoadImm((p % 12) as u16));
                 b.apply(0, Some(if p % 12 == 0 || p % 12 == 10 { Ty::V } else { Ty::I }));
             }
             26 => {
                 // vref: idx second, vec on top
-                b.push_small((p % 8) as u128);
+                b.push_small(index_class(p, 8));
                 b.push_vec(p >> 3);
                 b.ops.push(ROp::VRef);
                 b.apply(2, Some(Ty::I));
@@ -365,7 +413,7 @@ pub fn build_program(choices: &[(u8, u64)]) -> Vec<ROp> {
             28 => {
                 // vset: value, idx, vec(top)
                 b.push_int(p >> 1);
-                b.push_small((p % 5) as u128);
+                b.push_small(index_class(p, 5));
                 b.push_vec(p >> 3);
                 b.ops.push(ROp::VSet);
                 b.apply(3, Some(Ty::V));
@@ -382,8 +430,8 @@ pub fn build_program(choices: &[(u8, u64)]) -> Vec<ROp> {
             }
             31 => {
                 // vslice: end, begin, vec(top)
-                b.push_small(((p >> 4) % 6) as u128);
-                b.push_small((p % 6) as u128);
+                b.push_small(index_class(p >> 4, 6));
+                b.push_small(index_class(p.rotate_left(17), 6));
                 b.push_vec(p >> 8);
                 b.ops.push(ROp::VSlice);
                 b.apply(3, Some(Ty::V));
@@ -425,7 +473,7 @@ pub fn build_program(choices: &[(u8, u64)]) -> Vec<ROp> {
             37 => {
                 // bset: value, idx, bytes(top)
                 b.push_int(p >> 1);
-                b.push_small((p % 34) as u128);
+                b.push_small(index_class(p, 34));
                 b.push_bytes(p >> 6);
                 b.ops.push(ROp::BSet);
                 b.apply(3, Some(Ty::B));
@@ -446,19 +494,19 @@ pub fn build_program(choices: &[(u8, u64)]) -> Vec<ROp> {
             }
             40 => {
                 b.ensure(&[Ty::I], p, sloppy);
-                b.ops.push(ROp::Bez((p % 4) as u16));
+                b.ops.push(ROp::Bez(jump_class(p)));
                 b.apply(1, None);
             }
             41 => {
                 b.ensure(&[Ty::I], p, sloppy);
-                b.ops.push(ROp::Bnz((p % 4) as u16));
+                b.ops.push(ROp::Bnz(jump_class(p)));
                 b.apply(1, None);
             }
             42 => {
-                b.ops.push(ROp::Jmp((p % 5) as u16));
+                b.ops.push(ROp::Jmp(jump_class(p)));
             }
             43 => {
-                let n = [0u16, 1, 2, 3, 5][(p % 5) as usize];
+                let n = [0u16, 1, 2, 3, 5, 1, 2, 3, 255, 256, 257][(p % 11) as usize];
                 let m = ((p >> 3) % 7) as u16;
                 b.ops.push(ROp::Loop(n, m));
             }
